@@ -125,6 +125,15 @@ def job_random(args):
                 out.append(call_partition(n, mat, mode, scale=1, junk=0))
                 out.append(call_segmentation(n, mat, mode, scale=1, glob=False))
             continue
+        if rnd.random() < 0.2:
+            # tiny magnitudes (squared angles, costs in small units): small integers times 2^-50 (exact), so that every
+            # difference between partitions is far below 1e-12 and still exact
+            n = rnd.randrange(3, 9)
+            mat = sym(n, [rnd.randrange(0, 17) for _ in range(n * (n - 1) // 2)])
+            for mode in (0, 1):
+                out.append(call_partition(n, mat, mode, scale=2 ** 50, junk=0))
+                out.append(call_segmentation(n, mat, mode, scale=2 ** 50, glob=False))
+            continue
         lo = rnd.choice([0, 0, -hi])            # costs AND rewards: signed entries, exact zeros included
         mat = sym(n, [rnd.randrange(lo, hi + 1) for _ in range(npairs)])
         for mode in (0, 1):
